@@ -17,7 +17,7 @@ ASSUMPTIONS = [
     "the parent link of the copy's root is not constrained by the statement",
     "sharing of immutable values (strings) between copy and original is not 'mutable state'",
 ]
-REQUIRED = ["cross_session_documents", "copies", "edits_on_copy", "edits_on_original", "aliasing_checks", "inner_node_copies", "copies_with_shared_nsmap_in_original"]
+REQUIRED = ["cross_session_documents", "copies", "edits_on_copy", "edits_on_original", "aliasing_checks", "inner_node_copies", "second_generation_copies", "original_registry_entries_rechecked", "copies_with_shared_nsmap_in_original"]
 EXHAUSTIVE = {"quick": False, "thorough": False}
 
 EDITS = ("content", "tail", "prefix", "name", "attr_add", "attr_overwrite", "attr_remove", "extras_add", "ns_declare", "ns_redeclare",
@@ -185,6 +185,7 @@ def one_tree(ctx, size, i):
         src = nodes[src_index]
         ids_before = set(Node.store.keys())
         before = snapshot.Snap([t])
+        registered = [(n.id, Node.store.get(n.id)) for n in nodes]
         try:
             c = src.copy()
         except Exception as e:
@@ -197,8 +198,29 @@ def one_tree(ctx, size, i):
         d = before.diff()
         if d:
             ctx.violation("copy-modifies-original", f"copy() changed the original: {d[0]}", wit())
+        ctx.count("original_registry_entries_rechecked", len(registered))
+        for k, was in registered:
+            if Node.store.get(k) is not was:
+                ctx.violation("copy-takes-over-original-id", "after copy() an id of the original resolves to another node than before (the copy's "
+                                                             "ids are not fresh)", wit())
+                break
         check_copy(ctx, t, src, c, ids_before, wit)
-        emlkit.discard(c)
+        # copies of copies (duplicating an entry that was itself duplicated), and of a node inside a copy
+        gen2 = []
+        try:
+            for s2 in [c] + ([rng.choice(snapshot.walk(c)[1:])] if c.children else []):
+                ids2 = set(Node.store.keys())
+                b2 = snapshot.Snap([c])
+                c2 = s2.copy()
+                gen2.append(c2)
+                ctx.evaluated()
+                ctx.count("second_generation_copies")
+                if b2.diff():
+                    ctx.violation("copy-modifies-original", f"copy() of a copy changed it: {b2.diff()[0]}", wit())
+                check_copy(ctx, c, s2, c2, ids2, wit)
+        except Exception as e:
+            ctx.violation(f"crash:{type(e).__name__}@{emlkit.raise_site(e)}|second-generation", f"copy() of a copy raised {e!r}", wit())
+        emlkit.discard(c, *gen2)
         independence_sweep(ctx, plain, src_index, exhaustive=len(nodes) <= 12 and (ctx.tier == "thorough" or len(nodes) <= 5),
                            share=share)
     if i % 53 == 0:
@@ -259,6 +281,14 @@ def replay(ctx, witness):
     c = src.copy()
     ctx.evaluated()
     check_copy(ctx, t, src, c, ids_before, lambda: witness)
+    if any(Node.store.get(n.id) is not n for n in snapshot.walk(t)):
+        ctx.violation("copy-takes-over-original-id", "after copy() an id of the original resolves to another node", witness)
+    try:
+        for s2 in snapshot.walk(c):
+            ids2 = set(Node.store.keys())
+            check_copy(ctx, c, s2, s2.copy(), ids2, lambda: witness)
+    except Exception as e:
+        ctx.violation(f"crash:{type(e).__name__}@{emlkit.raise_site(e)}|second-generation", f"copy() of a copy raised {e!r}", witness)
     if "kind" in witness:
         side, idx, kind = witness["side"], witness["node_index"], witness["kind"]
         target = snapshot.walk(c if side == "copy" else src)[idx]
